@@ -192,6 +192,29 @@ def gen_cases(rng, n, thorough):
     return cases
 
 
+from ..syn_dbg import PARAM_PREFIX
+
+
+def battery_cases():
+    """every run: each enumerated attribute of a syntactic form flipped against each other value, around a parameter
+    (random corruption reaches these only with some probability per run)"""
+    P = PARAM_PREFIX + "0"
+    out = []
+    abis = ["", "extern ", 'extern "C" ', 'extern "system" ', "unsafe ", 'unsafe extern "C" ', 'unsafe extern "system" ']
+    for a in abis:
+        for b in abis:
+            out.append(("type", f"{a}fn({P}) -> u8", f"{b}fn(i32) -> u8", "battery:fn-abi/unsafety"))
+    refs = ["&{}", "&mut {}", "&'a {}", "&'a mut {}", "&'b {}", "&'static {}", "*const {}", "*mut {}", "[{}]", "[{}; 2]", "[{}; 3]",
+            "({},)", "({}, {})", "({})", "Vec<{}>", "Box<{}>", "m::W1<{}>", "::m::W1<{}>", "W1<{}>", "dyn Tr<{}>", "dyn Tr<{}> + Send",
+            "dyn Tr<{}> + 'a", "dyn Tr<{}> + 'b", "dyn for<'x> Tr<{}>", "fn() -> {}", "fn({})", "fn({}, ...)", "<{} as Tr>::Out", "<{} as Tr2>::Out",
+            "<{} as Tr>::Out2", "Tr<Out = {}>", "[u8; {{ {} }}]"]
+    tys = [r for r in refs if "Tr<Out" not in r and "{{" not in r]
+    for a in tys:
+        for b in tys:
+            out.append(("type", a.format(*([P] * a.count("{}"))), b.format(*(["i32"] * b.count("{}"))), "battery:type-form"))
+    return out
+
+
 def corpus_cases():
     path = os.path.join(C.VERIF, "corpus", PROP, "cases.json")
     if os.path.exists(path):
@@ -219,7 +242,7 @@ def run(tier, seed, replay=None):
         r = json.load(open(replay))
         cases = [tuple(c["case"]) for c in [r] if "case" in r] + [tuple(d["case"]) for d in r.get("smallest_disagreements", []) if "case" in d]
     else:
-        cases = corpus_cases() + gen_cases(rng, n, tier == "thorough")
+        cases = corpus_cases() + battery_cases() + gen_cases(rng, n, tier == "thorough")
 
     reqs = []
     for kind, a, b, _ in cases:
